@@ -25,10 +25,15 @@ def main():
                            stdout=subprocess.PIPE, stderr=subprocess.STDOUT, text=True)
         fired = [l.strip() for l in r.stdout.splitlines() if l.startswith("    ")]
         status = "caught" if r.returncode == 0 else ("MISSED" if r.returncode == 1 else "PATCH-BROKEN")
-        if status != "caught":
+        if meta.get("kind") == "neutral":
+            # a change that stopped manifesting once a latent defect was repaired: behaviour-preserving today, must stay silent
+            status = {"caught": "FALSE-ALARM", "MISSED": "silent"}.get(status, status)
+            if status != "silent":
+                bad += 1
+        elif status != "caught":
             bad += 1
         print("%-8s %-8s %s" % (status, sid, (fired[0][:150] if fired else r.stdout.strip()[:150])))
-        meta["caught_by_check"] = prop if status == "caught" else None
+        meta["caught_by_check"] = prop if status in ("caught", "FALSE-ALARM") else None
         meta["reports"] = fired[:4]
         json.dump(meta, open(meta_p, "w"), indent=1)
     return 1 if bad else 0
